@@ -275,6 +275,7 @@ class MapCorr(Corr):
 class C04(Prop):
     id = "C04"
     props_file = "Props/C04.v"
+    extra_props_files = ["Props/Pipeline.v"]     # the composed frame pipeline (C01 -> C10 -> C03 -> C04; C08 on it)
     design_ref = "DESIGN.md section 4, C04"
     technique = "Rocq proof (induction over rankings, telescoping + Abel summation over Q) about a hand model of Ap/Map; in-Coq correspondence with the real Ap/Map"
     level_text = ("Theorems (Props/C04.v, closed under the global context), for rankings of ANY length and any rational weights: the code's record-high "
